@@ -46,6 +46,11 @@ C = {
    "handshake stage) against a real dserver; a counting reference model (connections actually open on the simulated network) is compared with the server's own count and with "
    "admission of probe logins while connections are held and after they ended; counter never negative at every 7th step.",
    "deterministic simulation: connection histories with resets on a simulated network, counting reference model"),
+ "C06": ("exploration", "5 C06",
+   "Seeded simulation of dmap runs over 1-12 (thorough: 40) real dservers or serverless with counts and sums known by construction; schedules are biased to the aggregator's "
+   "channel-closed decision, the re-queue goroutine, limiter registration and the client's merge; equal latencies make final batches arrive together; "
+   "oracle: conservation per group and termination with status 0 within a bound.",
+   "deterministic simulation: seeded schedules at the aggregator/limiter/merge sites, simultaneous delivery on the simulated network, conservation + bounded-liveness oracle"),
 }
 
 checks = []
